@@ -260,6 +260,15 @@ func c07Specs(quick bool) []*SeqSpec {
 		}
 		specs = append(specs, &SeqSpec{Name: "restart-" + v.name, Cfg: hapi.Config{FastKeys: 2, Concurrent: 2, FileBuf: v.buf, RewriteSz: v.rw, PreDBs: 2}, Alphabet: c07Alphabet(quick), Depth: d, Restart: true, MaxStates: 300000})
 	}
+	// the largest expiry values of every unit (the log stores the remaining time in 16 bits)
+	specs = append(specs, &SeqSpec{Name: "restart-boundary-expiries", Cfg: hapi.Config{FastKeys: 2, Concurrent: 2, FileBuf: 64, RewriteSz: 1 << 20, PreDBs: 2}, Depth: 3, Restart: true, MaxStates: 300000, Alphabet: []SeqOp{
+		op(0, withEF(L(0, 4, 1, 0, 0xffff, 0, 1), efZeroAof)),
+		op(0, withEF(L(0, 5, 1, 0, 0xfffe, 0, 1), efZeroAof)),
+		op(0, withEF(L(0, 6, 1, 0, 0xffff, 0, 1), efZeroAof|fMinute)),
+		op(0, withEF(L(0, 7, 1, 0, 0xffff, 0, 1), efZeroAof|fMilli)),
+		op(0, withEF(L(0, 8, 1, 0, 0x8000, 0, 1), efZeroAof)),
+		tick(1 * sec), tick(3 * sec),
+	}})
 	// two restarts: whatever the first restart restores is released in the second incarnation and must stay released
 	specs = append(specs, &SeqSpec{Name: "restart-twice-buf64", Cfg: hapi.Config{FastKeys: 2, Concurrent: 2, FileBuf: 64, RewriteSz: 1 << 20, PreDBs: 2}, Alphabet: c07Alphabet(quick), Depth: d - 1, Restart: true, Restart2: true, MaxStates: 300000})
 	return specs
